@@ -573,6 +573,11 @@ func newFileConfig(opts *CmdEnv, cData, rulesData []configData, currentVersion .
 	if err != nil {
 		return nil, err
 	}
+	if !opts.NoValidate {
+		if err := rulesconf.check(); err != nil {
+			return nil, fmt.Errorf("invalid rules: %w", err)
+		}
+	}
 
 	// Set workerCount on SampleCache once during initialization
 	mainconf.SampleCache.WorkerCount = uint(mainconf.Collection.GetWorkerCount())
